@@ -350,23 +350,27 @@ def run(ctx, col: Collector):
 
     # ---------------------------------------------------------------- C14-separator / C14-prefix
     def separators():
+        from .common import inline_single_assignment_locals
+        from ..strctx import flatten_concat
         tools = idx.func('pydbml.tools', 'comment')
         params = [a.arg for a in tools.node.args.args]
         if len(params) != 2:
             raise Unrecognised('tools.comment does not take (text, prefix)', tools.node)
         val, comb = params
-        rets = [n for n in walk_no_nested(tools.node) if isinstance(n, ast.Return)]
+        tnode = inline_single_assignment_locals(tools.node)
+        rets = [n for n in walk_no_nested(tnode) if isinstance(n, ast.Return)]
         if len(rets) != 1 or rets[0].value is None:
             raise Unrecognised('tools.comment has not exactly one return', tools.node)
         e = rets[0].value
-        # shape: SEP.join(<f'{comb} {line}' for line in val.split(SEP2)>) + TERMINATOR
-        if not (isinstance(e, ast.BinOp) and isinstance(e.op, ast.Add) and isinstance(e.right, ast.Constant)):
-            raise Unrecognised(f'tools.comment return is not `<joined lines> + <terminator>`: `{norm(e)}`', e)
-        term_s = e.right.value
-        j = e.left
+        fpath = tools.file
+        # shape 1: SEP.join(<line template> for line in val.split(S)) + TERMINATOR ; shape 2: ''.join(<line template ending in a line break> ...)
+        term_s = None
+        j = e
+        if isinstance(e, ast.BinOp) and isinstance(e.op, ast.Add) and isinstance(e.right, ast.Constant):
+            term_s, j = e.right.value, e.left
         if not (isinstance(j, ast.Call) and isinstance(j.func, ast.Attribute) and j.func.attr == 'join'
                 and isinstance(j.func.value, ast.Constant) and len(j.args) == 1 and isinstance(j.args[0], (ast.GeneratorExp, ast.ListComp))):
-            raise Unrecognised(f'tools.comment does not join a comprehension: `{norm(j)}`', j)
+            raise Unrecognised(f'tools.comment does not join a comprehension over the lines: `{norm(e)[:80]}`', e)
         join_sep = j.func.value.value
         comp = j.args[0]
         gen = comp.generators[0]
@@ -374,40 +378,29 @@ def run(ctx, col: Collector):
         if not (len(comp.generators) == 1 and isinstance(it, ast.Call) and isinstance(it.func, ast.Attribute) and it.func.attr in ('split', 'splitlines')
                 and norm(it.func.value) == val):
             raise Unrecognised(f'tools.comment does not iterate over {val}.split(...): `{norm(it)}`', it)
-        split_sep = it.args[0].value if it.args and isinstance(it.args[0], ast.Constant) else None
-        fpath = tools.file
+        split_sep = it.args[0].value if it.args and isinstance(it.args[0], ast.Constant) else ('\n' if it.func.attr == 'splitlines' else None)
+        lv = gen.target.id if isinstance(gen.target, ast.Name) else None
+        pieces = flatten_concat(comp.elt)
+        lits = [p.value if isinstance(p, ast.Constant) else None for p in pieces]
+        elt_ends_nl = bool(pieces) and isinstance(pieces[-1], ast.Constant) and str(pieces[-1].value).endswith('\n')
         col.check(not gen.ifs, 'C14-prefix', 'tools.comment:every-line', 'every line of the comment is emitted (no filter)',
                   'tools.comment filters lines: some comment lines are dropped', node=comp, file=fpath)
-        col.check(join_sep == '\n' and split_sep == '\n', 'C14-prefix', 'tools.comment:line-separator',
-                  'lines are split and re-joined on the line break',
-                  f'tools.comment splits on {split_sep!r} and joins with {join_sep!r}: lines of a multi-line comment are merged or not separated, '
-                  f'so comment text can run into a statement / lose its prefix', node=j, file=fpath)
-        col.check(isinstance(term_s, str) and term_s.endswith('\n') and term_s.strip() == '', 'C14-prefix', 'tools.comment:terminator',
-                  'the comment block ends with a line break', f'tools.comment terminates the block with {term_s!r}: the element text would '
-                  f'continue on the comment line', node=e, file=fpath)
-        # element: f'{comb} {cl}' - the prefix parameter comes first on every line
-        el = comp.elt
-        lv = gen.target.id if isinstance(gen.target, ast.Name) else None
-        ok_el = False
-        if isinstance(el, ast.JoinedStr) and el.values:
-            first = el.values[0]
-            rest = el.values[1:]
-            uses_line = any(isinstance(v, ast.FormattedValue) and norm(v.value) == lv for v in rest)
-            between = ''.join(v.value for v in rest if isinstance(v, ast.Constant))
-            ok_el = isinstance(first, ast.FormattedValue) and norm(first.value) == comb and uses_line and '\n' not in between
-        elif isinstance(el, ast.BinOp):
-            leaves = []
-
-            def flat(x):
-                if isinstance(x, ast.BinOp) and isinstance(x.op, ast.Add):
-                    flat(x.left)
-                    flat(x.right)
-                else:
-                    leaves.append(x)
-            flat(el)
-            ok_el = bool(leaves) and norm(leaves[0]) == comb and any(norm(x) == lv for x in leaves[1:])
-        col.check(ok_el, 'C14-prefix', 'tools.comment:prefix-first', 'each emitted line starts with the comment marker followed by the line text',
-                  f'tools.comment builds each line as `{norm(el)}`: the marker is not the first thing on every line', node=el, file=fpath)
+        sep_ok = split_sep == '\n' and ((join_sep == '\n' and not elt_ends_nl) or (join_sep == '' and elt_ends_nl))
+        col.check(sep_ok, 'C14-prefix', 'tools.comment:line-separator', 'lines are split on the line break and every emitted line ends with one',
+                  f'tools.comment splits on {split_sep!r}, joins with {join_sep!r} and builds each line as `{norm(comp.elt)[:50]}`: lines of a multi-line comment are merged '
+                  f'or not separated, so comment text can run into a statement / lose its prefix', node=j, file=fpath)
+        term_ok = elt_ends_nl or (isinstance(term_s, str) and term_s.endswith('\n') and term_s.strip() == '')
+        col.check(term_ok, 'C14-prefix', 'tools.comment:terminator', 'the comment block ends with a line break',
+                  f'tools.comment terminates the block with {term_s!r}: the element text would continue on the comment line', node=e, file=fpath)
+        # the prefix parameter comes first on every line, then the line text, nothing that could break the line in between
+        def src(p):
+            return norm(p.value) if isinstance(p, ast.FormattedValue) else norm(p)
+        first_is_prefix = bool(pieces) and not isinstance(pieces[0], ast.Constant) and src(pieces[0]) == comb
+        has_line = any(not isinstance(p, ast.Constant) and src(p) == lv for p in pieces[1:])
+        mid = ''.join(str(p.value) for p in pieces[1:-1 if elt_ends_nl else None] if isinstance(p, ast.Constant))
+        col.check(first_is_prefix and has_line and '\n' not in mid, 'C14-prefix', 'tools.comment:prefix-first',
+                  'each emitted line starts with the comment marker followed by the line text',
+                  f'tools.comment builds each line as `{norm(comp.elt)[:60]}`: the marker is not the first thing on every line', node=comp.elt, file=fpath)
         # the two wrappers
         for mod, fn, marker in (('pydbml.renderer.dbml.default.utils', 'comment_to_dbml', '//'),
                                 ('pydbml.renderer.sql.default.utils', 'comment_to_sql', '--')):
@@ -616,6 +609,14 @@ def emits_comment_first(idx, fi: FuncInfo, helper: str, depth: int = 0) -> Tuple
         elif isinstance(top, ast.Return):
             if top.value is None or not leftmost(top.value, call):
                 return False, 'the returned text does not start with the comment'
+            return True, ''
+        elif isinstance(top, ast.If) and any(isinstance(x, ast.Return) and x.value is not None and any(y is call for y in ast.walk(x.value)) for b in top.body for x in ast.walk(b)):
+            # if model.comment: return comment + <element> ; return <element>
+            for b in top.body:
+                for x in ast.walk(b):
+                    if isinstance(x, ast.Return) and x.value is not None and any(y is call for y in ast.walk(x.value)):
+                        if not leftmost(x.value, call):
+                            return False, 'the returned text does not start with the comment'
             return True, ''
         elif isinstance(top, ast.If):
             # if model.comment: <var>.append(comment) / <var> += comment
